@@ -47,7 +47,7 @@ Lemma decode_body_bound cs fin hc bc ru mx maxSize hb log st' out log' :
   bytes_ok (concat (r_chunks (d_rd st'))) /\ d_max st' = mx.
 Proof.
   intros Hh Hm Hb Hsz E. pose proof Hh as [Hhb [H8 Hl]].
-  pose proof (le32_get_range hb Hhb) as Hg. unfold decode_body in E.
+  pose proof (le32_get_range hb Hhb) as Hg. unfold decode_body, gdecode_body in E.
   destruct (header_total_demux hb Hh) as [[t [Ht [Hr Hd]]]|He].
   2:{ rewrite He in E. injection E as <- <- <-. cbn [d_rd r_chunks d_max].
       repeat split; try lia; try discriminate; try assumption. }
@@ -118,15 +118,15 @@ Theorem alloc_bound cs fin hc bc ru mx st' out log :
   bytes_ok (concat cs) -> 0 <= mx < two64 ->
   decode1 (mkD (mkReader cs fin) hc bc ru mx) = (st', out, log) ->
   0 <= alloc_bytes log <= eff_max mx /\
-  0 <= alloc_table log <= max_stream_segments + 1 /\
+  0 <= alloc_table log <= max_stream_segments /\
   out <> DPanic /\
   (forall segs, out = DMsg segs ->
-     1 <= len segs <= max_stream_segments + 1 /\ segs_ok segs /\
+     1 <= len segs <= max_stream_segments /\ segs_ok segs /\
      stream_header_size (len segs - 1) + sum_len segs <= eff_max mx) /\
   bytes_ok (concat (r_chunks (d_rd st'))) /\ d_max st' = mx.
 Proof.
   intros Hb Hmx E. pose proof (eff_max_nonneg mx ltac:(lia)) as He0.
-  unfold decode1 in E. cbn [d_max d_rd] in E.
+  unfold decode1, decode1_gen, gdecode1_gen in E; change (@gdecode_body reader read_full) with decode_body in E. cbn [d_max d_rd] in E.
   destruct (negb (mx =? 0) && (mx <? word_size)) eqn:Ecfg.
   { injection E as <- <- <-. cbn [alloc_bytes alloc_table d_rd r_chunks d_max]. unfold max_stream_segments.
     repeat split; try lia; try discriminate; assumption. }
@@ -143,7 +143,7 @@ Proof.
   specialize (Hbw w eq_refl). unfold word_size in Hlw.
   pose proof (le32_get_range w Hbw) as Hm.
   unfold with_rd in E. cbn [d_rd d_hdrcap d_bufcap d_reuse d_max] in E.
-  destruct (le32_get w >? max_stream_segments) eqn:Emax.
+  destruct (le32_get w + 1 >? seg_count_limit true) eqn:Emax; unfold seg_count_limit in Emax.
   { injection E as <- <- <-. cbn [alloc_bytes alloc_table d_rd r_chunks d_max]. unfold max_stream_segments.
     repeat split; try lia; try discriminate; assumption. }
   destruct (le32_get w =? 0) eqn:E0.
@@ -193,18 +193,19 @@ Example alloc_bound_tight :
   out = DErr EReadSegs /\ alloc_bytes log = 1016.
 Proof. vm_compute. split; reflexivity. Qed.
 
-(* the segment-count check admits 513 segments (maxSeg = 512), one more than the constant
-   maxStreamSegments = 512 says; 514 are refused *)
-Example accepts_513_segments :
+(* O1 / F22: the segment-count check as found (maxSeg > 512) admitted 513 segments, one more
+   than maxStreamSegments = 512; the repaired check (maxSeg >= 512) accepts 512 and refuses 513 *)
+Example accepts_513_refuted :
+  let hdr512 := le32 511 ++ zeros (4 * 512 + 4) in
   let hdr513 := le32 512 ++ zeros (4 * 513) in
-  let hdr514 := le32 513 ++ zeros (4 * 514 + 4) in
-  (exists segs, fst (fst (decode1 (d_init (mkReader [hdr513] EOF) 0))) = fst (fst (decode1 (d_init (mkReader [hdr513] EOF) 0)))
-     /\ snd (fst (decode1 (d_init (mkReader [hdr513] EOF) 0))) = DMsg segs /\ len segs = 513) /\
-  snd (fst (decode1 (d_init (mkReader [hdr514] EOF) 0))) = DErr ETooManySegs.
+  (exists segs, snd (fst (decode1_gen false (d_init (mkReader [hdr513] EOF) 0))) = DMsg segs /\ len segs = 513) /\
+  snd (fst (decode1 (d_init (mkReader [hdr513] EOF) 0))) = DErr ETooManySegs /\
+  (exists segs, snd (fst (decode1 (d_init (mkReader [hdr512] EOF) 0))) = DMsg segs /\ len segs = 512).
 Proof.
-  cbv zeta. split.
-  - eexists. split; [reflexivity|]. split; [vm_compute; reflexivity|vm_compute; reflexivity].
+  cbv zeta. split; [|split].
+  - eexists. split; vm_compute; reflexivity.
   - vm_compute. reflexivity.
+  - eexists. split; vm_compute; reflexivity.
 Qed.
 
 (* the same over whole histories of Decode / ReuseBuffer calls (any order, any number), from
@@ -215,16 +216,16 @@ Definition st_ok (st : dstate) : Prop :=
 Theorem alloc_bound_history : forall ops st st' outs,
   (forall m, ~ In (OpSetMax m) ops) -> st_ok st -> run_history st ops = (st', outs) ->
   Forall (fun ol => 0 <= alloc_bytes (snd ol) <= eff_max (d_max st) /\
-                    alloc_table (snd ol) <= max_stream_segments + 1 /\ fst ol <> DPanic /\
-                    forall segs, fst ol = DMsg segs -> len segs <= max_stream_segments + 1) outs.
+                    alloc_table (snd ol) <= max_stream_segments /\ fst ol <> DPanic /\
+                    forall segs, fst ol = DMsg segs -> len segs <= max_stream_segments) outs.
 Proof.
   induction ops as [|o ops IH]; intros st st' outs Hno [Hb Hmx] E; cbn [run_history] in E.
   - injection E as <- <-. constructor.
   - destruct (dstep st o) as [st1 r] eqn:Es. destruct (run_history st1 ops) as [st2 outs2] eqn:Er.
     injection E as <- <-.
     assert (Hno' : forall m, ~ In (OpSetMax m) ops) by (intros m Hin; apply (Hno m); now right).
-    destruct o; cbn [dstep] in Es.
-    + destruct (decode1 st) as [[st1' out] log] eqn:Ed. injection Es as <- <-.
+    unfold dstep, dstep_gen in Es. destruct o.
+    + change (decode1_gen true st) with (decode1 st) in Es. destruct (decode1 st) as [[st1' out] log] eqn:Ed. injection Es as <- <-.
       destruct st as [[cs fin] hc bc ru mx]. cbn [d_rd r_chunks d_max] in *.
       destruct (alloc_bound cs fin hc bc ru mx st1' out log Hb Hmx Ed) as [A1 [A2 [A3 [A4 [A5 A6]]]]].
       constructor.
